@@ -108,11 +108,12 @@ func (a *Application) providerProxyHandler(w http.ResponseWriter, r *http.Reques
 	r.URL.Path = pr.targetPath
 
 	a.logRequestStart(pr, len(endpoints))
-	err = a.executeProxyRequest(ctx, w, r, endpoints, pr)
+	tracked := &startTrackingWriter{ResponseWriter: w}
+	err = a.executeProxyRequest(ctx, tracked, r, endpoints, pr)
 	a.logRequestResult(pr, err)
 
 	if err != nil {
-		a.handleProxyError(w, err)
+		a.handleProxyError(tracked, err)
 	}
 }
 
